@@ -522,9 +522,12 @@ LAYOUT_FILES = [
     "PROJ2/pkg/sub/deep/leaf.py", "PROJ/app/../app/main.py", "PURE/../site-packages/six.py",
     "PROJ/vendored_six.py", "PROJ/app/stdos.py", "PURE/mine_link.py",
     "PUREX/extra_mod.py", "STDX/dev_mod.py", "PUREX/pkg/__init__.py",
+    "PROJ/pkgxsub.py", "PROJ/pkg_sub/leaf.py", "PROJ/appxmain.py", "PROJ/sixxpy.py",
 ]
 SYNTHETIC = ["<string>", "<frozen importlib._bootstrap>", "", "<stdin>", "rel/x.py", "<doctest foo[0]>"]
-LAYOUT_ALLOW = ["pkg", "requests", "six", "app", "leaf", "json", "deep", "main", "nosuch", "numpy", "sub", "CWDNAME"]
+LAYOUT_ALLOW = ["pkg", "requests", "six", "app", "leaf", "json", "deep", "main", "nosuch", "numpy", "sub", "CWDNAME",
+                # dotted entries name no file or directory (the variable lists top-level names): they must not start matching by accident
+                "pkg.sub", "app.main", "six.py"]
 
 
 def gen_layout(rng):
@@ -558,7 +561,7 @@ def build_layout(base, plan):
     for sub in ("requests", "pkg/sub/deep", "vend"):
         os.makedirs(os.path.join(pure, sub), exist_ok=True)
     os.makedirs(os.path.join(plat, "numpy"), exist_ok=True)
-    for sub in ("app", "pkg/sub/deep", "lib/python3.12", "site-packages", "requests"):
+    for sub in ("app", "pkg/sub/deep", "lib/python3.12", "site-packages", "requests", "pkg_sub"):
         os.makedirs(os.path.join(proj, sub), exist_ok=True)
     os.makedirs(os.path.join(proj2, "pkg/sub/deep"), exist_ok=True)
     for pk in ("pkg", "pkg/sub", "pkg/sub/deep", "requests"):
